@@ -553,12 +553,12 @@ impl ZipOffsetBlobStore {
 
         // Get record boundaries from offset index
         let (start_offset, end_offset) = self.offsets.get2(id as usize)?;
-        let mut record_len = (end_offset - start_offset) as usize;
-        
         // an empty record at the very end starts at content.len()
+        // (validate before subtracting: a loaded offset index is untrusted)
         if start_offset > end_offset || end_offset > self.content.len() as u64 {
             return Err(ZiporaError::invalid_data("offset out of bounds"));
         }
+        let mut record_len = (end_offset - start_offset) as usize;
 
         let record_data = &self.content.as_slice()[start_offset as usize..end_offset as usize];
 
